@@ -292,6 +292,9 @@ pub fn run(tier: &str, seed: u64) -> i32 {
         store_leg(&mut rep, mix(seed, 7000 + case as u64), if t { 60 } else { 40 });
     }
     // --- the client's encoding against the server's parser, over the real HTTP path ----------------
+    for case in 0..(if t { 6 } else { 1 }) {
+        tcp_leg(&mut rep, mix(seed, 9300 + case as u64));
+    }
     for case in 0..(if t { 12 } else { 3 }) {
         wire_leg(&mut rep, mix(seed, 9100 + case as u64), if t { 120 } else { 60 });
     }
@@ -655,6 +658,109 @@ fn wire_leg(rep: &mut Report, seed: u64, n: usize) {
     })();
     if let Err(e) = r {
         rep.inconclusive(format!("wire leg: {}", e));
+    }
+    sess.close();
+    rm_dir(&dir);
+}
+
+/// The client library's other transport: the same server reached over TCP (`--expose`). Topics that need care in
+/// a URI must arrive as sent (or be refused by the client - never be stored as something else), and content
+/// fetched by hash through a writer that takes little at a time comes back whole.
+fn tcp_leg(rep: &mut Report, seed: u64) {
+    let mut rng = Rng::new(seed);
+    let port = match std::net::TcpListener::bind("127.0.0.1:0").and_then(|l| l.local_addr()) {
+        Ok(a) => a.port(),
+        Err(e) => {
+            rep.extra.insert("tcp_leg".into(), json!(format!("no loopback port: {}", e)));
+            return;
+        }
+    };
+    let addr = format!("127.0.0.1:{}", port);
+    let dir = work_dir("e6t");
+    let mut sess = match Session::spawn_with(&dir, true, &[("XSMON_EXPOSE", addr.as_str())]) {
+        Ok(s) => s,
+        Err(e) => {
+            rep.inconclusive(format!("tcp leg session: {}", e));
+            return;
+        }
+    };
+    let t0 = std::time::Instant::now();
+    while std::net::TcpStream::connect(&addr).is_err() {
+        if t0.elapsed() > Duration::from_secs(10) {
+            rep.extra.insert("tcp_leg".into(), json!("server did not listen on the loopback port within 10 s"));
+            sess.close();
+            rm_dir(&dir);
+            return;
+        }
+        std::thread::sleep(Duration::from_millis(20));
+    }
+    let rt = tokio::runtime::Builder::new_current_thread().enable_all().build().unwrap();
+    let r: Result<(), crate::session::SessionError> = (|| {
+        for topic in ["plain", "tpl.{name}", "quote\"d", "a.b.c", "x%20y", "semi;colon", "tilde~x", "a+b", "pipe|x", "caret^x", "star*", "at@x"] {
+            rep.eval();
+            let body = format!("tcp {}", topic).into_bytes();
+            let res = rt.block_on(xs::client::append(&addr, topic, std::io::Cursor::new(body), None, None, None));
+            match res {
+                Ok(bytes) => match serde_json::from_slice::<Frame>(&bytes) {
+                    Ok(f) => {
+                        rep.count("wire.tcp_appends_compared", 1);
+                        let stored = sess.call(json!({"op": "get", "id": f.id.to_string()}))?;
+                        let stored_topic = stored["frame"]["topic"].as_str().map(|s| s.to_string());
+                        if f.topic != topic || stored_topic.as_deref() != Some(topic) {
+                            rep.violation("C12/wire/tcp/topic-arrived-different-from-what-the-client-sent", json!({"sent": topic, "answered": f.topic, "stored": stored_topic}));
+                        }
+                    }
+                    Err(_) => {
+                        // a refusal by the server (4xx text) is fine; nothing may have been stored under another name
+                        rep.count("wire.tcp_appends_refused", 1);
+                    }
+                },
+                Err(_) => rep.count("wire.tcp_appends_refused_by_the_client", 1),
+            }
+        }
+        for len in [5usize, 70_000 + rng.below(60_000)] {
+            rep.eval();
+            let bytes = rng.bytes(len);
+            let v = sess.call(json!({"op": "cas_insert", "b64": crate::session::b64(&bytes)}))?;
+            let Some(h) = v["hash"].as_str() else { continue };
+            let Ok(integrity) = h.parse::<ssri::Integrity>() else { continue };
+            let got = rt.block_on(async {
+                let (mut w, mut r) = tokio::io::duplex(1024);
+                let reader = tokio::spawn(async move {
+                    use tokio::io::AsyncReadExt;
+                    let mut out = vec![];
+                    let mut buf = [0u8; 700];
+                    loop {
+                        match r.read(&mut buf).await {
+                            Ok(0) | Err(_) => break,
+                            Ok(n) => {
+                                out.extend_from_slice(&buf[..n]);
+                                tokio::time::sleep(Duration::from_micros(50)).await;
+                            }
+                        }
+                    }
+                    out
+                });
+                let res = tokio::time::timeout(Duration::from_secs(30), xs::client::cas_get(&addr, integrity, &mut w)).await;
+                drop(w);
+                let out = reader.await.unwrap_or_default();
+                (res.map(|r| r.map_err(|e| e.to_string())), out)
+            });
+            match got {
+                (Ok(Ok(())), out) => {
+                    rep.count("wire.tcp_cas_gets_compared", 1);
+                    if out != bytes {
+                        rep.violation("C12/wire/tcp/content-fetched-by-hash-differs-from-what-was-stored", json!({"stored_len": bytes.len(), "fetched_len": out.len(), "is_prefix": out.len() < bytes.len() && out[..] == bytes[..out.len()]}));
+                    }
+                }
+                (Ok(Err(e)), _) => rep.violation("C12/wire/tcp/client-cas-get-failed", json!({"len": bytes.len(), "error": e})),
+                (Err(_), _) => rep.inconclusive("client cas_get over tcp did not finish within 30 s"),
+            }
+        }
+        Ok(())
+    })();
+    if let Err(e) = r {
+        rep.inconclusive(format!("tcp leg: {}", e));
     }
     sess.close();
     rm_dir(&dir);
